@@ -1204,9 +1204,30 @@ pub fn object_set_prototype_of(
         }
     };
 
+    if let Some(ref p) = new_proto
+        && would_create_prototype_cycle(&obj_ref, p)
+    {
+        return Err(JsError::type_error("Cyclic __proto__ value"));
+    }
     obj_ref.borrow_mut().prototype = new_proto;
     // Object was passed in by caller, already owned - no guard needed
     Ok(Guarded::unguarded(obj))
+}
+
+/// Would making `proto` the prototype of `obj` close a prototype cycle? (ECMA-262 10.1.2.1 step 8)
+///
+/// Prototype chains are walked by unbounded loops and recursions (`instanceof`, property lookup),
+/// so a cycle would hang or overflow the native stack. Chains are acyclic as long as every setter
+/// performs this check, hence the walk below terminates.
+pub fn would_create_prototype_cycle(obj: &JsObjectRef, proto: &JsObjectRef) -> bool {
+    let mut current = Some(proto.cheap_clone());
+    while let Some(p) = current {
+        if crate::gc::Gc::ptr_eq(&p, obj) {
+            return true;
+        }
+        current = p.borrow().prototype.clone();
+    }
+    false
 }
 
 /// Object.is(value1, value2)
